@@ -341,6 +341,23 @@ JPrintExpr(e, st) ==
       ELSE Fail("PrintExpr:structure-or-value", st)
 
 ----------------------------------------------------------------------------
+(* Comparison probes at magnitudes beyond 31-bit rationals (C12): the two    *)
+(* sides are given as mixed numbers [i, t, d] = i + t/d.  Comparison with a  *)
+(* tolerance is translation invariant, so both sides are shifted by the      *)
+(* smaller integer part before Rat!CmpTolSet is applied.                     *)
+
+JCmpProbe(e, st) ==
+  LET x == e.x  y == e.y
+      base == IF x[1] < y[1] THEN x[1] ELSE y[1]
+      far == Abs(x[1] - y[1]) > 1000
+      xs == Norm((x[1] - base) * x[3] + x[2], x[3])
+      ys == Norm((y[1] - base) * y[3] + y[2], y[3])
+      S == IF far THEN {CASE e.op \in {"<", "<="} -> x[1] < y[1] [] e.op \in {">", ">="} -> x[1] > y[1] [] OTHER -> FALSE}
+           ELSE CmpTolSet(e.op, xs, ys, Eps)
+  IN  IF Has(e.out, "exc") THEN Fail("CmpProbe:exception", st)
+      ELSE IF e.out.val \in S THEN Ok(st) ELSE Fail("CmpProbe", st)
+
+----------------------------------------------------------------------------
 (* Renaming (C18): the handle e.h is a second parse of the same text whose   *)
 (* action e.act had its parameters renamed in place by the map e.map.        *)
 
@@ -440,6 +457,7 @@ Judge(e, st) ==
     [] e.c = "Ground"       -> JGround(e, st)
     [] e.c = "Rename"       -> JRename(e, st)
     [] e.c = "PrintExpr"    -> JPrintExpr(e, st)
+    [] e.c = "CmpProbe"     -> JCmpProbe(e, st)
     [] e.c = "ExportDomain" -> JExportDomain(e, st)
     [] e.c = "ExportProblem" -> JExportProblem(e, st)
     [] e.c = "CopyState"    -> JCopyState(e, st)
